@@ -132,6 +132,9 @@ func (r *Run) Thorough() bool { return r.Tier == "thorough" }
 // cases; an expired run stops enumerating, records the cap and is not called exhaustive.
 func (r *Run) Expired() bool { return time.Now().After(r.deadline) }
 
+// Deadline is the instant at which the internal time budget ends (for worker subprocesses).
+func (r *Run) Deadline() time.Time { return r.deadline }
+
 // Cap records that a bound/time cap was hit: the run is no longer exhaustive.
 func (r *Run) Cap(what string) {
 	r.mu.Lock()
